@@ -13,6 +13,23 @@ if os.environ.get("SEED_DIVERSE"):
                  "src/vtlengine/duckdb_transpiler/Transpiler/__init__.py (prefer none). Look for places in Operators/, Interpreter/, AST/ (constructor, DAG, "
                  "ASTString), API/, files/, Model/, DataTypes/, duckdb_transpiler/io/, duckdb_transpiler/sql/*.sql, duckdb_transpiler/Config/, "
                  "duckdb_transpiler/Transpiler/structure_visitor.py / operators.py / sql_builder.py, ViralPropagation/ or Exceptions/ whose behaviour the property depends on.\n\n")  # "" -> /tmp/wt, /tmp/seed_out ; "2" -> /tmp/wt2, /tmp/seed_out2
+AVOID = ""
+if os.environ.get("SEED_AVOID"):
+    import glob, re
+    places = set()
+    for d in glob.glob(f"/verif/seeded/{pid}_*/patch.diff"):
+        cur = None
+        for line in open(d):
+            if line.startswith("+++ b/"):
+                cur = line[6:].strip().replace("src/vtlengine/", "")
+            m = re.match(r"@@ .* @@\s*(?:async\s+)?(?:def|class)\s+(\w+)", line)
+            if m and cur:
+                places.add(f"{cur}::{m.group(1)}")
+            elif line.startswith("@@") and cur and cur.endswith(".sql"):
+                places.add(cur)
+    if places:
+        AVOID = ("Earlier volunteers already made changes in these places for this property; choose DIFFERENT functions / files (a different mechanism, not a variation of the same edit): "
+                 + ", ".join(sorted(places)) + ".\n\n")
 print(f"""You are helping test a verification effort for the open-source Python project vtlengine (an interpreter for the SDMX Validation and Transformation Language, VTL; it analyses scripts semantically and executes them by generating DuckDB SQL). Your job is to play the part of a plausible but subtly wrong code change ("seeded bug").
 
 ## The property that your change must break
@@ -51,4 +68,4 @@ For change k (k = 1..{n}):
 - /tmp/seed_out{RND}/{pid}/{pid}_k/notes.md    : 5-15 lines: what the change is, why it is a plausible mistake, what specific circumstance is needed for it to manifest, what you ran and observed (pristine vs changed, and the test-suite line before/after).
 After saving each patch, restore the worktree to pristine (`git -C /tmp/wt{RND}/{pid} checkout -- . && git -C /tmp/wt{RND}/{pid} clean -fdq`) and verify that the demo passes on pristine and fails after `git -C /tmp/wt{RND}/{pid} apply <patch>`; leave the worktree pristine at the end.
 
-{DIVERSITY}Vary the changes: touch different files/functions/mechanisms for each one, and prefer subtle ones (an off-by-one, a dropped guard, a mis-ordered pair of operations, an "optimisation" that skips a step, a table entry changed in only one of two places that must agree, a cleanup moved out of a finally, ...). In your final answer give a 3-line summary per change.""")
+{DIVERSITY}{AVOID}Vary the changes: touch different files/functions/mechanisms for each one, and prefer subtle ones (an off-by-one, a dropped guard, a mis-ordered pair of operations, an "optimisation" that skips a step, a table entry changed in only one of two places that must agree, a cleanup moved out of a finally, ...). In your final answer give a 3-line summary per change.""")
